@@ -6,7 +6,7 @@ from engine_conc import *
 
 
 def _tlc(rep, module, cfg, label, consts, expect=None):
-    r = run_tlc(module, cfg, timeout=600, workers=8)
+    r = run_tlc(module, cfg, timeout=600, workers=8, only=expect)
     require_ok(r, cfg)
     rep.add_tlc(label, r, consts, expect_violation=expect)
     if expect:
